@@ -74,9 +74,11 @@ fn take_last_error() -> Option<Box<dyn Error>> {
 #[no_mangle]
 pub unsafe extern "C" fn last_error_message() -> *const c_char {
     match take_last_error() {
-        Some(err) => CString::new(err.to_string().as_bytes())
-            .expect("Invalid Str")
-            .into_raw(),
+        Some(err) => {
+            // The message may quote input that contains NUL, which a C string can't carry
+            let message: Vec<u8> = err.to_string().bytes().filter(|b| *b != 0).collect();
+            CString::new(message).expect("Invalid Str").into_raw()
+        }
         None => std::ptr::null(),
     }
 }
